@@ -57,6 +57,7 @@ def payload_ty(F, i):
 
 
 def run(ctx, rep):
+    balance.rule_parked(ctx, rep)  # a parked caller-supplied value must be handed over before anything can unwind
     for tag, F, E in ctx.each():
         A = balance.analysis(tag, F, E)
         N = ptrclass.Norm(F)
